@@ -646,6 +646,32 @@ impl<'a> Ctx<'a> {
         return Ok(Tr { code: format!("({})", code), ty, pure });
       }
     }
+    // shape A: `match cond { true => a, false => b }` (either order, `_` allowed for the second row)
+    {
+      let is_bool_pat = |p: &syn::Pat| match p {
+        syn::Pat::Lit(l) => match &l.lit { syn::Lit::Bool(b) => Some(Some(b.value)), _ => None },
+        syn::Pat::Wild(_) => Some(None),
+        _ => None,
+      };
+      if m.arms.len() == 2 && m.arms.iter().all(|a| a.guard.is_none()) {
+        if let (Some(Some(first)), Some(second)) = (is_bool_pat(&m.arms[0].pat), is_bool_pat(&m.arms[1].pat)) {
+          if second.map(|b| b != first).unwrap_or(true) {
+            let c = self.expr(&m.expr, Some(&Ty::Bool))?;
+            if c.ty != Ty::Bool { return Err("match on a non-bool with boolean patterns".into()); }
+            let x = self.expr(&m.arms[0].body, expected)?;
+            let y = self.expr(&m.arms[1].body, expected)?;
+            let (t, e) = if first { (x, y) } else { (y, x) };
+            let ty = if t.ty == Ty::Never { e.ty.clone() } else { t.ty.clone() };
+            if c.pure && t.pure && e.pure {
+              return Ok(Tr::pure(format!("(if {} then {} else {})", c.code, t.code, e.code), ty));
+            }
+            let (tl, el) = (t.lifted(), e.lifted());
+            let (code, pure) = self.seq(vec![c], |n| (format!("(if {}\n   then {}\n   else {})", n[0], tl, el), false));
+            return Ok(Tr { code, ty, pure });
+          }
+        }
+      }
+    }
     // shape B: a tuple of boolean conditions matched against `(true, _)`-style rows, first match wins
     if let syn::Expr::Tuple(tup) = &*m.expr {
       let n = tup.elems.len();
